@@ -146,7 +146,7 @@ class Select(ASTNode):
             for key, value in self.using.items():
                 if isinstance(value, Object):
                     args = [
-                        f'{k}={json.dumps(v, ensure_ascii=False)}'
+                        f'{k}={v.to_string() if isinstance(v, ASTNode) else json.dumps(v, ensure_ascii=False)}'
                         for k, v in value.params.items()
                     ]
                     args_str = ', '.join(args)
